@@ -50,7 +50,14 @@ StrPairs == { <<"me", <<"str", "me", W0>>>>, <<"me", <<"str", "m", W0>>>>, <<"me
               <<"me", <<"str", "", W0>>>>, <<"", <<"str", "", W0>>>>, <<"", <<"str", "me", W0>>>>, <<"me", <<"str", " me", W0>>>>,
               <<"me", <<"int", "", WOf(1)>>>>, <<"me", <<"bool", "true", W0>>>>, <<"me", <<"arr", "[\"me\"]", W0>>>>, <<"me", <<"null", "null", W0>>>>,
               <<"#hex:6dc3a9", <<"strx", "6dc3a9", W0>>>>, <<"#hex:6dc3a9", <<"str", "me", W0>>>>, <<"me", <<"strx", "6dc3a9", W0>>>>,
-              <<"ab", <<"strx", "6162006364", W0>>>>, <<"me", <<"absent", "", W0>>>> }
+              <<"ab", <<"strx", "6162006364", W0>>>>, <<"me", <<"absent", "", W0>>>>,
+              \* long values ("#long:n:tail" = n times 'a' then tail): equal, differing only in the last character, one a prefix of
+              \* the other - at lengths around 255/256/257 and 4096 (no comparison may stop early)
+              <<"#long:255:x", <<"str", "#long:255:x", W0>>>>, <<"#long:255:x", <<"str", "#long:255:y", W0>>>>,
+              <<"#long:256:x", <<"str", "#long:256:y", W0>>>>, <<"#long:257:x", <<"str", "#long:257:y", W0>>>>,
+              <<"#long:256:", <<"str", "#long:256:tail", W0>>>>, <<"#long:300:tail", <<"str", "#long:300:", W0>>>>,
+              <<"#long:4096:x", <<"str", "#long:4096:x", W0>>>>, <<"#long:4096:x", <<"str", "#long:4096:y", W0>>>>,
+              <<"#long:65536:x", <<"str", "#long:65536:y", W0>>>> }
 StrScripts ==
   { Setup(s) \o <<CClaimSetOp(c, p[1]),
                   VerifyOp(TokC(s, IF p[2][1] = "absent" THEN <<>> ELSE <<<<c, p[2][1], p[2][2], p[2][3]>>>>))>> :
